@@ -36,6 +36,8 @@ impl StreamingContext {
         ));
 
         let passive_snapshot = passive_buffers.non_empty().await;
+        #[cfg(feature = "verif-hooks")]
+        crate::verif_hooks::point("rd.passive_snapshot", passive_snapshot.len() as u64);
         let caches = Arc::new(QueryCaches::new_abs(plan.segment_base_dir.clone()));
         let effective_limit = plan.limit().map(|limit| limit + plan.offset().unwrap_or(0));
 
